@@ -26,7 +26,13 @@ def main():
     meta = dict(mod.META)
     if callable(meta.get('extra_cov')):
         meta['extra_cov'] = meta['extra_cov'](tier, results)
-    validated = mod.validate(tier) if hasattr(mod, 'validate') else 0
+    validated = 0
+    if hasattr(mod, 'validate'):
+        try:
+            validated = mod.validate(tier)
+        except Exception as e:            # the interpreter or the regex model disagrees with CPython: nothing is decided
+            print(f'INCONCLUSIVE: translator validation failed: {type(e).__name__}: {e}')
+            sys.exit(2)
     code = common.finish(pid, tier, meta['level'], results, t0, meta['bounds'] if not callable(meta['bounds'])
                          else meta['bounds'](tier), meta['stubs'], meta['assumptions'], meta['rule'],
                          meta['explanation'], extra_cov=meta.get('extra_cov'), validated=validated,
